@@ -12,7 +12,7 @@ import ast
 
 from ..cfg import known_falsy
 from ..model import self_attr, unparse, walk_body_shallow
-from .util import (result_stored, aliases_of, call_name, call_recv, calls_in, chains_in, handler_exits, kwarg, names_in, need,
+from .util import (at, result_stored, aliases_of, call_name, call_recv, calls_in, chains_in, handler_exits, kwarg, names_in, need,
                    node_assign_value, norm, registrations, where)
 
 TECHNIQUE = "single-writer + success-only registration, failure distinguishability on CFG paths, snapshot def-use, " \
@@ -245,9 +245,10 @@ def run(ctx):
     for n in ch.nodes:
         v = node_assign_value(n, "_last_committed_offset")
         if v is not None:
+            v = at(ctx, hor, n.id, v)  # a local that names `<reply>.offset` is resolved flow-sensitively
             resp = unparse(v.value) if isinstance(v, ast.Attribute) and v.attr == "offset" else None
             ok = resp is not None and ("%s.offset == OFFSET_NOT_COMMITTED" % resp, False) in fh[n.id]
-            deps = sorted({norm(t.stmt.test) for t, lab in ch.control_deps_transitive(n.id) if t.kind == "test"})
+            deps = sorted({norm(at(ctx, hor, t.id, t.stmt.test)) for t, lab in ch.control_deps_transitive(n.id) if t.kind == "test"})
             allowed = {"%s.offset == OFFSET_NOT_COMMITTED" % resp, "%s.offset != OFFSET_NOT_COMMITTED" % resp,
                        "OFFSET_NOT_COMMITTED == %s.offset" % resp, "OFFSET_NOT_COMMITTED != %s.offset" % resp}
             extra = [d for d in deps if d not in allowed and not d.startswith("hasattr(")]
@@ -262,7 +263,7 @@ def run(ctx):
             sib = [m for m in ch.nodes if node_assign_value(m, "_fetch_offset") is not None and (
                 any(s == n.id and lab is None for s, lab in ch.succ[m.id]) or any(
                     s == m.id and lab is None for s, lab in ch.succ[n.id]))]
-            r6.check(len(sib) == 1 and norm(node_assign_value(sib[0], "_fetch_offset")) in (
+            r6.check(len(sib) == 1 and norm(at(ctx, hor, sib[0].id, node_assign_value(sib[0], "_fetch_offset"))) in (
                 "%s.offset + 1" % resp, "1 + %s.offset" % resp), "%s#resume" % hor.qname,
                 "fetch position after an offset-fetch reply is not committed + 1", where(hor, n.stmt),
                 "committed message redelivered (+0) or one message skipped (+2)")
